@@ -84,6 +84,10 @@ def _verify_case(index, registry, res, module, cls, fnode, contract, key, case, 
             _run_path(m, ctx, module, cls, fnode, contract, key, res, case, first)
         except Unsupported as u:
             msg = "%s (line %s)" % (u, getattr(m, "cur_line", "?"))
+            if os.environ.get("PYVC_TRACE"):
+                import traceback
+
+                traceback.print_exc()
             if msg not in res.errors:
                 res.errors.append(msg)
         finally:
